@@ -78,7 +78,10 @@ type Case struct {
 	// configured directory, missing when the cache was created, appeared holding an invalid Spec
 	// file: the rescan the call itself triggers reports an error
 	Late bool `json:"first_call_after_a_directory_with_a_bad_file_appeared,omitempty"`
-	idx  []int
+	// LongN > 0: a request of LongN names: distinct unknown devices, every third one (LongMix) a resolvable one
+	LongN   int  `json:"long_request_names,omitempty"`
+	LongMix bool `json:"long_request_with_resolvable_names_in_between,omitempty"`
+	idx     []int
 }
 
 var lateRoot, specRoot string
@@ -102,6 +105,18 @@ func eval(c Case) hx.Result {
 		for _, i := range c.idx {
 			if !tokens[i].resolve {
 				wantMiss = append(wantMiss, tokens[i].device)
+			}
+		}
+		if c.LongN > 0 {
+			c.Request = nil
+			for k := 0; k < c.LongN; k++ {
+				if c.LongMix && k%3 == 1 {
+					c.Request = append(c.Request, K1+"=a")
+					continue
+				}
+				q := fmt.Sprintf("%s=unknown-%03d", K1, k)
+				c.Request = append(c.Request, q)
+				wantMiss = append(wantMiss, q)
 			}
 		}
 		fail := func(sig, msg string, exp, act any) hx.Result {
@@ -143,6 +158,9 @@ func eval(c Case) hx.Result {
 
 // kinds: the set of token kinds in the request (signature material)
 func kinds(c Case) string {
+	if c.LongN > 0 {
+		return fmt.Sprintf("long-request-of-%d-names", c.LongN)
+	}
 	seen := map[string]bool{}
 	out := ""
 	for _, i := range c.idx {
@@ -253,9 +271,17 @@ func main() {
 		}
 	}
 	rec(nil)
+	// long requests: sizes around the thresholds at which lists are summarised, buffers grow or small-size fast paths end
+	for _, n := range []int{7, 8, 9, 10, 15, 16, 17, 31, 32, 33, 64, 65, 100, 128, 129, 257, 1025} {
+		for _, mix := range []bool{false, true} {
+			for _, o := range []string{"empty", "populated"} {
+				cases = append(cases, Case{OCI: o, LongN: n, LongMix: mix})
+			}
+		}
+	}
 	r.Rule = fmt.Sprintf("one cache (two directories; resolvable a,b,c,d; x defined twice at the top priority; y defined once low and twice high) x every request list of length 0..%d with repetitions over %d request kinds "+
 		"(3 resolvable, unknown device, unknown vendor, unqualified, missing name, empty string, conflict-removed, conflict-over-shadowed, a resolvable name padded with a blank / ending in a newline / in other case) x %d initial OCI specs incl. nil and one that already holds an entry of the same identity as every edit of the resolvable devices. "+
-		"Oracle: error; returned list == request filtered to unresolvable names (order, multiplicity); OCI spec deep-equal and JSON-identical to its pre-call copy. Distinct by construction; non-trivial = at least one miss or nil spec",
+		"plus requests of 7..1025 names (distinct unknown devices, optionally every third one resolvable). Oracle: error; returned list == request filtered to unresolvable names (order, multiplicity); OCI spec deep-equal and JSON-identical to its pre-call copy. Distinct by construction; non-trivial = at least one miss or nil spec",
 		maxLen, len(tokens), len(ociNames))
 	r.Assumptions = []string{"every resolvable device's edits could be applied (type and major specified), so a modification would be visible", "which names resolve in this population is cross-checked against the cache at start (exit 2 on disagreement; that rule is C01's subject)"}
 	// the automatic-refresh flavour: every request of up to two names
